@@ -283,27 +283,35 @@ fn run_case(case: &Value, variant: usize, rep: &mut Report) -> bool {
         let dev = x["dev"].as_bool().unwrap();
         // ---- contract oracle on the real observation ----
         let mut bad: Vec<String> = vec![];
+        // which predicates of the contract fail: part of the signature, so that a recorded finding (known set of failing
+        // predicates) does not hide a different violation in the same states
+        let mut which: Vec<&str> = vec![];
         if obs.p {
             bad.push("asking the view for its writable region panics".into());
+            which.push("panic");
         }
         if !obs.p && !(obs.io == obs.uo && obs.il <= obs.ul) {
             bad.push(format!(
                 "initialized bytes are not a prefix of the writable region: init=({},{}) writable=({},{})",
                 obs.io, obs.il, obs.uo, obs.ul
             ));
+            which.push("nonprefix");
         }
         if !(obs.uo >= 0 && obs.uo + obs.ul <= cap as i64 && obs.io >= 0 && obs.io + obs.il <= cap as i64) {
             bad.push(format!(
                 "view outside the allocation (cap {cap}): init=({},{}) writable=({},{})",
                 obs.io, obs.il, obs.uo, obs.ul
             ));
+            which.push("outside");
         }
         if obs.rl > cap as i64 {
             bad.push(format!("root length {} exceeds capacity {cap}", obs.rl));
+            which.push("rootlen-over-cap");
         }
         if let Some((off, k)) = filled {
             if obs.rl < pre.rl {
                 bad.push(format!("root length shrank from {} to {} on fill", pre.rl, obs.rl));
+                which.push("shrank");
             }
             if kind != "fixed" {
                 let want = if k == 0 { pre.rl } else { pre.rl.max(off + k as i64) };
@@ -312,17 +320,19 @@ fn run_case(case: &Value, variant: usize, rep: &mut Report) -> bool {
                         "after writing {k} bytes at root offset {off} the root reports {} initialized bytes, expected {want}",
                         obs.rl
                     ));
+                    which.push("rootlen");
                 }
             }
         }
         if obs.mem != ghost {
             bad.push(format!("root content {:?} differs from what was written {:?}", obs.mem, ghost));
+            which.push("content");
         }
         if !bad.is_empty() {
             // the view kinds on the stack identify the site
             rep.problem(
                 "contract",
-                json!({"site": "bufview", "deviation_predicted": dev, "action": a}),
+                json!({"site": "bufview", "deviation_predicted": dev, "action": a, "which": which.join("+")}),
                 format!("{rootname} step {i} ({a} {b} {e}): {}", bad.join("; ")),
                 case,
                 i,
